@@ -11,7 +11,10 @@ import (
 	"fmt"
 	"sort"
 
+	"testing"
+
 	"github.com/bronlabs/bron-crypto/pkg/proofs/sigma/compiler/fiatshamir"
+	"github.com/bronlabs/bron-crypto/pkg/proofs/sigma/compiler/fischlin"
 
 	"verif/harness/proto"
 )
@@ -187,6 +190,11 @@ func runSignDev(take int) {
 	if want("signdev:lindell22-bip340") {
 		d := bip340Desc()
 		signDevMatrix(func() { l22Line(d, cnf, keyFor(d.g, cnf, 0), pick(cnf, 2), "rounds", "short", fiatshamir.Name) }, take)
+	}
+	// Lindell17 needs the test-mode binary (1024-bit Paillier keys, as in the repository's own tests)
+	if want("signdev:lindell17") && testing.Testing() {
+		key := l17KeyFor(dK256, np, 0, false)
+		signDevMatrix(func() { l17Line(dK256, np, key, pick(np, 2), "rounds", "short", fischlin.Name, int(seed)%2 == 0) }, take)
 	}
 	if want("signdev:lindell22-mina") {
 		d := minaDesc()
